@@ -1186,6 +1186,13 @@ func (x *Evaluator) evalCell(a *ssa.Alloc, at ssa.Instruction, e *env, c *evalCt
 			stores = append(stores, st)
 		}
 	}
+	// a list that a function literal of this function extends for its caller (values = append(values, v)
+	// in a callback that a helper calls once per element): the list holds what the callback appends
+	if _, isSlice := a.Type().Underlying().(*types.Pointer).Elem().Underlying().(*types.Slice); isSlice && e.fn == a.Parent() {
+		if lv, ok := x.collectedByCallback(a, stores, e, c); ok {
+			return lv
+		}
+	}
 	// struct or array cell: not a scalar cell
 	if len(stores) == 0 {
 		// a struct literal built field by field in a local: the fields that were given a value
@@ -2592,4 +2599,143 @@ func (x *Evaluator) evalNestedField(a, outer *ssa.FieldAddr, t types.Type, e *en
 		return IntV{Origin: "field:" + name + "@" + site}
 	}
 	return x.symbolic(t, "field:"+name)
+}
+
+// collectedByCallback: the cell a holds a list that starts empty in its own function and is
+// only extended by one function literal (cell = append(cell, v…)), which is handed to a helper
+// of the product that calls it; the value of the cell after the helper returned is a list of the
+// values the literal appends, evaluated with the arguments the helper calls it with.
+func (x *Evaluator) collectedByCallback(a *ssa.Alloc, own []*ssa.Store, e *env, c *evalCtx) (Val, bool) {
+	// own stores: empty lists only
+	for _, st := range own {
+		if lv, ok := x.evalC(st.Val, e, c).(ListV); !ok || !lv.IsFinite || len(lv.Finite) != 0 {
+			return nil, false
+		}
+	}
+	var mc *ssa.MakeClosure
+	idx := -1
+	for _, r := range *a.Referrers() {
+		m, ok := r.(*ssa.MakeClosure)
+		if !ok {
+			continue
+		}
+		if mc != nil {
+			return nil, false
+		}
+		mc = m
+		for i, b := range m.Bindings {
+			if b == ssa.Value(a) {
+				idx = i
+			}
+		}
+	}
+	if mc == nil || idx < 0 {
+		return nil, false
+	}
+	lit, _ := mc.Fn.(*ssa.Function)
+	if lit == nil || idx >= len(lit.FreeVars) {
+		return nil, false
+	}
+	fv := lit.FreeVars[idx]
+	// the literal's stores into the cell: cell = append(cell, v…)
+	var added []ssa.Value
+	var apCall *ssa.Call
+	var apLoad *ssa.UnOp
+	nStores := 0
+	for _, b := range lit.Blocks {
+		for _, ins := range b.Instrs {
+			st, ok := ins.(*ssa.Store)
+			if !ok || st.Addr != ssa.Value(fv) {
+				continue
+			}
+			nStores++
+			ap, ok := st.Val.(*ssa.Call)
+			if !ok {
+				return nil, false
+			}
+			bi, ok := ap.Call.Value.(*ssa.Builtin)
+			if !ok || bi.Name() != "append" || len(ap.Call.Args) != 2 {
+				return nil, false
+			}
+			ld, ok := ap.Call.Args[0].(*ssa.UnOp)
+			if !ok || ld.X != ssa.Value(fv) {
+				return nil, false
+			}
+			apCall, apLoad = ap, ld
+			added = append(added, ap)
+		}
+	}
+	if nStores != 1 || len(added) != 1 {
+		return nil, false
+	}
+	// where the literal goes: an argument of a call of a helper of the product, which calls it
+	var elem Val
+	found := false
+	for _, r := range *mc.Referrers() {
+		call, ok := r.(*ssa.Call)
+		if !ok {
+			if _, isDbg := r.(*ssa.DebugRef); isDbg {
+				continue
+			}
+			return nil, false
+		}
+		h := call.Call.StaticCallee()
+		if h == nil || h.Blocks == nil || !x.W.IsProduct(pkgOf(h)) {
+			return nil, false
+		}
+		pj := -1
+		for j, arg := range call.Call.Args {
+			if arg == ssa.Value(mc) {
+				pj = j
+			}
+		}
+		if pj < 0 || pj >= len(h.Params) {
+			return nil, false
+		}
+		save := x.curCall
+		x.curCall = call
+		he := x.bindCall(h, call.Call.Args, e, c, nil, nil)
+		x.curCall = save
+		he.opaqueResult = e.opaqueResult
+		for _, hb := range h.Blocks {
+			for _, hi := range hb.Instrs {
+				cc, ok := hi.(*ssa.Call)
+				if !ok || cc.Call.Value != ssa.Value(h.Params[pj]) {
+					continue
+				}
+				le := x.newEnv(lit, nil, he.tag+">"+lit.Name(), e.top, he.depth+1)
+				le.site = he.site
+				le.clos, le.parent = mc, e
+				le.opaqueResult = e.opaqueResult
+				for k, lp := range lit.Params {
+					if k < len(cc.Call.Args) {
+						le.bind[lp] = x.evalC(cc.Call.Args[k], he, c)
+					}
+				}
+				// what one call of the literal appends: the append evaluated on an empty list
+				le.override = map[ssa.Value]Val{apLoad: ListV{IsFinite: true, Origin: "empty"}}
+				v := x.evalC(apCall, le, c)
+				if found {
+					return nil, false // called at several places: not one uniform element
+				}
+				switch l := v.(type) {
+				case ListV:
+					switch {
+					case l.IsFinite && len(l.Finite) == 1:
+						elem, found = l.Finite[0], true
+					case !l.IsFinite && l.Elem != nil && len(l.Prefix) == 0:
+						elem, found = l.Elem, true
+					default:
+						return nil, false
+					}
+				default:
+					return nil, false
+				}
+			}
+		}
+	}
+	if !found {
+		return nil, false
+	}
+	return ListV{Elem: elem, Origin: "collected:" + a.Comment}, true
 }
